@@ -946,7 +946,10 @@ def run(res, tier):
         raise C.ToolError("no clean case available for the tamper self-test")
     c, cli = first_ok
     t, deps = read_depfile(cli["depfile"])
-    dropped = dict(cli, depfile=cli["depfile"].rsplit(" ", 1)[0])
+    # every spelling of one file that was read goes (a file can be listed as `./x.h` and `x.h`)
+    esc = lambda x: x.replace("\\", "\\\\").replace(" ", "\\ ")
+    victim = norm(c, deps[-1])
+    dropped = dict(cli, depfile=esc(t) + ":" + "".join(" " + esc(x) for x in deps if norm(c, x) != victim))
     unread = [f for f in c["rel"] if f not in c["dag"]["read"]]
     tests = [("drop one prerequisite", dropped)]
     if unread:
